@@ -17,18 +17,23 @@ import vplib as V
 import lspdrive as L
 
 SPEC = os.path.join(V.SPEC, "Lsp")
-FILES = {"main": "main.asm", "inc": "inc.asm", "other": "other.asm"}
+FILES = {"main": "main.asm", "inc": "inc.asm", "other": "other.asm", "cfg": "mos.toml"}
 
 TEXTS = {
     "ma": '.import * from "inc.asm"\nfoo: {\n  lda bar // é汉 x\n  bar: nop\n}\n  lda foo.bar\n  sta ext\n',
-    "mb": '/// entry\nfoo: {\n  lda baz\n  baz: rts\n}\nfoo2: lda foo.baz // ü\U0001F600 tail\n.const c1 = 4\n  ldx #c1\n',
+    "mb": '/// entry\nfoo: {\n  lda baz\n  baz: rts\n}\nfoo2: lda foo.baz // ü\U0001F600 tail\n.const c1 = 4\n  ldx #c1\n.segment "default" {\n  tbl: .byte 1, 2\n}\n',
     "mx": '.import * from "inc.asm"\nfoo: {\n  lda (\n  bar: nop\n}\n  sta ext\n',
     "ia": "ext: nop\n",
-    "ib": "/// doc ñ\next: rts\nother2: .byte 1 // ñ\n",
+    "ib": "/// doc ñ\next: rts\nother2: .byte 1 // ñ\n.segment \"default\" {\n  itbl: .byte 3\n}\n",
+    "ca": '[build]\nentry = "main.asm"\n',
+    "cb": '[build]\nentry = "src/start.asm"\n',            # names a file that does not exist (yet)
+    "-": "",
     "ix": "ext: nop\n  lda #\n",
     "oth": "oth: nop\n  jmp oth\n",
 }
-DISK = {"main.asm": "ma", "inc.asm": "ia", "other.asm": "oth"}
+# two disk layouts: A = the entry file exists on disk, B = it only ever exists as an unsaved buffer
+LAYOUTS = {"A": {"main.asm": "ma", "inc.asm": "ia", "other.asm": "oth", "mos.toml": "ca"},
+           "B": {"main.asm": "-", "inc.asm": "ia", "other.asm": "oth", "mos.toml": "ca"}}
 MNEMONICS = set("adc and asl bcc bcs beq bit bmi bne bpl brk bvc bvs clc cld cli clv cmp cpx cpy dec dex dey eor inc inx iny jmp jsr lda ldx ldy lsr "
                 "nop ora pha php pla plp rol ror rti rts sbc sec sed sei sta stx sty tax tay tsx txa txs tya import from const byte as".split())
 
@@ -72,8 +77,10 @@ def wild_position(text, rnd):
 class Session:
     """Drives one server and records what it did.  No verdicts here."""
 
-    def __init__(self, mos, root, sid):
-        self.srv = L.Server(mos, root)
+    def __init__(self, mos, root, sid, layout="A"):
+        self.srv = L.Server(mos, root, timeout=8.0)
+        self.disk = LAYOUTS[layout]
+        self.layout = layout
         self.root = root
         self.sid = sid
         self.events = []
@@ -81,15 +88,16 @@ class Session:
         self.buf = {}
         self.last_seq = 0
         self.last_round = []
-        for f, t in DISK.items():
+        for f, t in self.disk.items():
             self.note_text(t, TEXTS[t])
+        self.note_text("-", "")
         self.init = self.srv.initialize()
 
     def note_text(self, tid, text):
         self.texts[tid] = text
 
     def eff(self, f):
-        return self.texts[self.buf[f]] if f in self.buf else TEXTS[DISK[f]] if f in DISK else ""
+        return self.texts[self.buf[f]] if f in self.buf else TEXTS[self.disk[f]] if f in self.disk else ""
 
     def _ev(self, **kw):
         e = {"k": "", "f": "", "t": "-", "kind": "", "line": 0, "ch": 0, "status": "", "panic": "", "nonnull": False, "ranges": [],
@@ -143,10 +151,10 @@ class Session:
         self.srv.kill()
 
 
-def probes_for(final_buf, texts, seed_key):
+def probes_for(final_buf, texts, seed_key, disk):
     """The probe requests sent to both servers: derived from the final buffers only (so that the fresh reference is memoisable)."""
     rnd = V.rng("C14-probes/" + seed_key)
-    eff = {f: (texts[final_buf[f]] if f in final_buf else TEXTS[DISK[f]]) for f in DISK}
+    eff = {f: (texts[final_buf[f]] if f in final_buf else TEXTS[disk[f]]) for f in disk}
     probes = []
     for _ in range(6):
         f = rnd.choice(["main.asm", "main.asm", "inc.asm", "other.asm"])
@@ -169,12 +177,12 @@ def run_probes(ses, probes):
 FRESH = {}
 
 
-def fresh_reference(mos, root, final_buf, texts, probes):
-    key = json.dumps([sorted((f, texts[t]) for f, t in final_buf.items()), probes], ensure_ascii=False)
+def fresh_reference(mos, root, final_buf, texts, probes, layout):
+    key = json.dumps([layout, sorted((f, texts[t]) for f, t in final_buf.items()), probes], ensure_ascii=False)
     if key in FRESH:
         return FRESH[key]
-    ses = Session(mos, root, "fresh")
-    order = [f for f in ("inc.asm", "other.asm", "main.asm") if f in final_buf]
+    ses = Session(mos, root, "fresh", layout)
+    order = [f for f in ("mos.toml", "inc.asm", "other.asm", "main.asm") if f in final_buf]
     rounds = []
     for f in order:
         ses.srv.did_open(os.path.join(root, f), texts[final_buf[f]])
@@ -199,9 +207,10 @@ def lt_of(text):
     return out
 
 
-def run_session(mos, root, sid, script):
+def run_session(mos, roots, sid, script, layout="A"):
     """script: list of ("open"|"change", f, tid, text) | ("close", f) | ("req", kind, f, line, ch) | ("rename", f)"""
-    ses = Session(mos, root, sid)
+    root = roots[layout]
+    ses = Session(mos, root, sid, layout)
     alive = ses.init["status"] == "ok"
     for st in script:
         if not alive:
@@ -217,28 +226,29 @@ def run_session(mos, root, sid, script):
         else:
             alive = ses.request(st[1], st[2], st[3], st[4])
     final_buf = dict(ses.buf)
-    probes = probes_for(final_buf, ses.texts, json.dumps(sorted((f, ses.texts[t]) for f, t in final_buf.items()), ensure_ascii=False))
+    probes = probes_for(final_buf, ses.texts, json.dumps([layout] + sorted((f, ses.texts[t]) for f, t in final_buf.items()), ensure_ascii=False), ses.disk)
     nhist = len(ses.events)
     if alive:
         run_probes(ses, probes)
     shown_h = ses.shown()
     last_round = ses.last_round
     ses.close()
-    ref = fresh_reference(mos, root, final_buf, ses.texts, probes)
+    ref = fresh_reference(mos, root, final_buf, ses.texts, probes, layout)
     for i, e in enumerate(ses.events[nhist:]):
         if i < len(ref["replies"]):
             e["hasFresh"], e["freshStatus"], e["fresh"] = True, ref["replies"][i][0], ref["replies"][i][1]
     for e in ses.events:
         e.pop("final", None)
-    files = sorted(DISK)
-    rec = {"id": sid, "disk": [{"f": f, "t": DISK[f]} for f in files],
-           "main": "main.asm",
-           "texts": [{"t": t, "lt": lt_of(x), "imp": re.findall(r'^\s*\.import\b[^"\n]*"([^"\n]+)"', x, re.M)} for t, x in sorted(ses.texts.items())],
+    files = sorted(ses.disk)
+    rec = {"id": sid, "disk": [{"f": f, "t": ses.disk[f]} for f in files],
+           "cfg": "mos.toml",
+           "texts": [{"t": t, "lt": lt_of(x) if t != "-" else [], "imp": re.findall(r'^\s*\.import\b[^"\n]*"([^"\n]+)"', x, re.M),
+                      "entry": (re.findall(r'^\s*entry\s*=\s*"([^"]*)"', x, re.M) or [""])[0]} for t, x in sorted(ses.texts.items())],
            "events": ses.events,
            "shownH": [{"f": f, "d": shown_h.get(f, "[]")} for f in files],
            "shownF": [{"f": f, "d": ref["shown"].get(f, "[]")} for f in files],
            "lastRound": last_round}
-    return rec, {"script": [list(s[:3]) if s[0] in ("open", "change") else list(s) for s in script], "probes": probes,
+    return rec, {"layout": layout, "script": [list(s[:3]) if s[0] in ("open", "change") else list(s) for s in script], "probes": probes,
                  "texts": {t: x for t, x in ses.texts.items()}, "stderr": "".join(ses.srv.stderr_buf)[-1500:]}
 
 
@@ -248,11 +258,12 @@ def parse_cases(r):
     seen, out = set(), []
     for line in r.prints("CASE"):
         inner = line[line.index(', "') + 2:line.rindex('>>')]
-        h = json.loads(json.loads(inner))["hist"]
-        key = json.dumps(h)
+        c = json.loads(json.loads(inner))
+        h = c["hist"]
+        key = json.dumps([c.get("main"), h])
         if key not in seen:
             seen.add(key)
-            out.append(h)
+            out.append(("B" if c.get("main") == "-" else "A", h))
     return out
 
 
@@ -299,12 +310,13 @@ def typing_script(rnd, n):
     return sc
 
 
-def random_script(rnd, n):
+def random_script(rnd, n, layout="A"):
     """Longer histories than TLC enumerates, same alphabet, with requests of every kind in between."""
     sc, openb = [], {}
+    DISK = LAYOUTS[layout]
     for _ in range(rnd.randrange(4, 9)):
-        f = rnd.choice(["main.asm", "inc.asm"])
-        tids = ["ma", "mb", "mx"] if f == "main.asm" else ["ia", "ib", "ix"]
+        f = rnd.choice(["main.asm", "main.asm", "inc.asm", "inc.asm", "mos.toml"])
+        tids = ["ma", "mb", "mx"] if f == "main.asm" else ["ia", "ib", "ix"] if f == "inc.asm" else ["ca", "cb"]
         x = rnd.random()
         if f in openb and x < 0.25:
             sc.append(("close", f))
@@ -351,13 +363,14 @@ def main(tier):
     if not design_level(rep, tier):
         return rep.finish()
     wd = V.fresh_dir("C14")
-    root = os.path.join(wd, "proj")
-    os.makedirs(root)
-    with open(os.path.join(root, "mos.toml"), "w") as f:
-        f.write('[build]\nentry = "main.asm"\n')
-    for fn, t in DISK.items():
-        with open(os.path.join(root, fn), "w", encoding="utf-8") as f:
-            f.write(TEXTS[t])
+    roots = {}
+    for lay, disk in LAYOUTS.items():
+        roots[lay] = os.path.join(wd, "proj" + lay)
+        os.makedirs(roots[lay])
+        for fn, t in disk.items():
+            if t != "-":
+                with open(os.path.join(roots[lay], fn), "w", encoding="utf-8") as f:
+                    f.write(TEXTS[t])
 
     # spec -> impl: every history the model explores up to MaxHist, plus seeded longer walks of the same machine
     cfg = os.path.join(wd, "gen.cfg")
@@ -366,21 +379,30 @@ def main(tier):
     r = V.tlc_must_pass(os.path.join(SPEC, "MC_Lsp.tla"), cfg=cfg, workers=4, timeout=900, tag="C14-gen")
     rep.add_tlc(r)
     kmax = 3 if tier == "quick" else 4
-    hists = [h for h in parse_cases(r) if len(h) <= kmax]
+    allh = [c for c in parse_cases(r) if 0 < len(c[1]) <= kmax]
+    rnd = V.rng("C14")
+
+    def core(c):          # always run: short ones, the config-free histories on the ordinary layout, closes of a buffer-only entry
+        lay, h = c
+        return (len(h) < kmax or (lay == "A" and not any(e["f"] == "cfg" for e in h))
+                or (lay == "B" and any(e["k"] == "close" for e in h) and not any(e["k"] == "rename" for e in h)))
+    hists = [c for c in allh if core(c)]
+    rest = [c for c in allh if not core(c)]
+    rnd.shuffle(rest)
+    hists += rest[:400 if tier == "quick" else 3000]
     open(cfg, "w").write(base.replace("MaxHist = 3", "MaxHist = 7"))
     r2 = V.tlc(os.path.join(SPEC, "MC_Lsp.tla"), cfg=cfg, workers=1, simulate=(80 if tier == "quick" else 400), depth=8, seed_arg=V.seed(), timeout=900, tag="C14-sim")
-    longer = [h for h in parse_cases(r2) if len(h) >= 5]
-    rnd = V.rng("C14")
+    longer = [c for c in parse_cases(r2) if len(c[1]) >= 5]
     rnd.shuffle(longer)
-    longer = longer[:100 if tier == "quick" else 800]
-    scripts = [("tlc", script_of_hist(h)) for h in hists if h] + [("sim", script_of_hist(h)) for h in longer]
-    nty, nrand = (100, 150) if tier == "quick" else (600, 1000)
-    scripts += [("typing", typing_script(rnd, i)) for i in range(nty)]
-    scripts += [("random", random_script(rnd, i)) for i in range(nrand)]
+    longer = longer[:60 if tier == "quick" else 800]
+    scripts = [("tlc", script_of_hist(h), lay) for lay, h in hists] + [("sim", script_of_hist(h), lay) for lay, h in longer]
+    nty, nrand = (60, 120) if tier == "quick" else (600, 1000)
+    scripts += [("typing", typing_script(rnd, i), "A") for i in range(nty)]
+    scripts += [("random", random_script(rnd, i, "AB"[i % 2]), "AB"[i % 2]) for i in range(nrand)]
     V.log("[C14] %d sessions (%d exhaustive histories, %d simulated, %d typing, %d random)" % (len(scripts), len(hists), len(longer), nty, nrand))
 
     def one(i):
-        return run_session(mos, root, i + 1, scripts[i][1])
+        return run_session(mos, roots, i + 1, scripts[i][1], scripts[i][2])
     with ThreadPoolExecutor(max_workers=6) as ex:
         results = list(ex.map(one, range(len(scripts))))
     recs = [V.clip_tree(x[0]) for x in results]
